@@ -5,7 +5,7 @@ from typing import Any, Dict, List
 
 import numpy as np
 
-from ..c09_gen import case_strategy
+from ..c09_gen import STEERS, apply_extras, case_strategy
 from ..envdrive import Driver, shipped_case_strategy
 from ..harness import CaseResult, Ctx, hyp_run
 from ..ref_obs import Leaf, Opt, RefReader, Unsupported, compare, count_leaves, count_off_default
@@ -67,6 +67,7 @@ def walk(exp, path: List[Any], seen: Dict[tuple, set]):
 def run_case(case: Dict) -> CaseResult:
     res = CaseResult()
     d = Driver(case)
+    apply_extras(d.cfg, d.meta, case.get("extra_actions"))  # C09's own ACL action variants (see c09_gen)
     try:
         reader = RefReader(d.cfg)
     except Unsupported:
@@ -129,7 +130,7 @@ def run_case(case: Dict) -> CaseResult:
         if reader.pairs:
             st["pairs"] += 1
         for k in reader.masked:
-            if k.startswith("disabled-nic"):
+            if k.startswith(("disabled-nic", "acl-")):
                 flags.add(k)
             else:
                 masked.add(k + (":gated" if gated.get(k) else ""))
@@ -179,5 +180,7 @@ def run_case(case: Dict) -> CaseResult:
 def worker(ctx: Ctx):
     paths = usable_shipped()
     q = ctx.tier == "quick"
-    hyp_run(ctx, case_strategy(max_ops=30), run_case, 32 if q else 700, sub=0)
+    # fixed quota per steer (STEERS sums to 32): quick 32 generated cases per worker, thorough 22 x 32 = 704
+    for k, (steer, share) in enumerate(STEERS.items()):
+        hyp_run(ctx, case_strategy(max_ops=30, steer=steer), run_case, share if q else share * 22, sub=10 + k)
     hyp_run(ctx, shipped_case_strategy(paths, max_ops=20), run_case, 5 if q else 100, sub=1)
